@@ -1,5 +1,50 @@
-p='/verif/DESIGN.md'
+import re
+p='/verif/check'
 s=open(p).read()
-s=s.replace("joiners with only dead bootstrap nodes are\nnot 'joined' for the discoverability clause.","joiners with only dead bootstrap nodes are\nnot 'joined' for the discoverability clause. Two false alarms showed only in the thorough tier and were corrected there:\nC08 - the predicate demanded a store request for every token-bearing peer, but a lookup over 25 peers only asks the 20\nclosest: it now counts the peers that actually answered the lookup with a token; C18 - a reply left in transit across\nthe 15-minute clock jump of a refresh step was read as a 15-minute round trip and inflated the request timeout to\n25 minutes, so that a later pair of lookups could not time out within the scenario: the harness now lets nothing be in\ntransit across a jump and waits for the timeout in force. A generator hang (one blocking socket read that never\nreturned, C18 thorough) led to non-blocking sockets for every manually ticked node and a wall-clock bound on generators.")
+# 1. main loop over (label, gen, prefix, profile)
+old_head='''    per_profile_cases = {}
+    for profile in profiles:
+        casedir = os.path.join(COQ, "cases", pid, profile)
+        shutil.rmtree(casedir, ignore_errors=True)
+        os.makedirs(casedir)
+        exe = MLV if profile == "release" else MLV_DEBUG
+'''
+new_head='''    per_profile_cases = {}
+    # a property can name further generators ("also": [(gen, prefix, scale_quick, scale_thorough)]): their cases are
+    # evaluated the same way; a run is labelled "<profile>" for the main generator and "<profile>:<gen>" otherwise
+    runs = [(prof, cfg["gen"], cfg["prefix"], scale) for prof in profiles]
+    for (g, pre, sq, st) in cfg.get("also", []):
+        runs.append(("release:" + g, g, pre, sq if tier == "quick" else st))
+    for (profile, gen_name, gen_prefix, gen_scale) in runs:
+        casedir = os.path.join(COQ, "cases", pid, profile.replace(":", "_"))
+        shutil.rmtree(casedir, ignore_errors=True)
+        os.makedirs(casedir)
+        exe = MLV_DEBUG if profile == "debug" else MLV
+'''
+assert old_head in s
+s=s.replace(old_head,new_head)
+s=s.replace('''        cmd = ["timeout", "600" if tier == "quick" else "1800", exe, cfg["gen"], "--seed", str(seed), "--scale", str(scale), "--shards", str(NPROC), "--out", casedir, "--profile", profile]''','''        cmd = ["timeout", "600" if tier == "quick" else "1800", exe, gen_name, "--seed", str(seed), "--scale", str(gen_scale), "--shards", str(NPROC), "--out", casedir, "--profile", profile.split(":")[0]]''')
+s=s.replace('''            distribution[profile + ":" + k if len(profiles) > 1 else k] = v''','''            distribution[profile + ":" + k if len(runs) > 1 else k] = v''')
+s=s.replace('''        fails, errors = eval_shards(casedir, cfg["prefix"])
+        corr_errors += errors
+        cases = load_cases(casedir, cfg["prefix"])''','''        fails, errors = eval_shards(casedir, gen_prefix)
+        corr_errors += errors
+        cases = load_cases(casedir, gen_prefix)''')
+# 2. replay
+s=s.replace('''    exe = MLV if profile == "release" else MLV_DEBUG
+    cmd = [exe, cfg["gen"], "--seed", str(rp["seed"]), "--scale", str(rp["scale"]), "--shards", "1", "--out", casedir, "--profile", profile]
+    r = run(cmd, timeout=3000)
+    cases = load_cases(casedir, cfg["prefix"])''','''    exe = MLV_DEBUG if profile == "debug" else MLV
+    rgen, rprefix, rscale = cfg["gen"], cfg["prefix"], rp["scale"]
+    if ":" in profile:
+        for (g, pre, sq, st) in cfg.get("also", []):
+            if g == profile.split(":")[1]:
+                rgen, rprefix, rscale = g, pre, (sq if rp.get("tier") == "quick" else st)
+    cmd = [exe, rgen, "--seed", str(rp["seed"]), "--scale", str(rscale), "--shards", "1", "--out", casedir, "--profile", profile.split(":")[0]]
+    r = run(cmd, timeout=3000)
+    cfg = dict(cfg, prefix=rprefix)
+    cases = load_cases(casedir, cfg["prefix"])''')
+# 3. C20 also runs the store histories of C03
+s=s.replace('''    "C20": dict(gen="c20", prefix="c20", scale=(1, 3), props="properties/C20.v",''','''    "C20": dict(gen="c20", prefix="c20", scale=(1, 3), props="properties/C20.v", also=[("c03", "c03", 1, 3)],''')
 open(p,'w').write(s)
 print('ok')
